@@ -11,7 +11,8 @@ SPEC_DRIVER_MODULES = ["BioCantor.Driver.Main", "BioCantor.Driver.SpecQuery"]
 GEN_NEEDS = ["bins", "CoordFmt", "SingleInterval_parent_to_relative_pos"]
 ERR_CLASS = True
 RULE = ("one case = one query on one REAL AnnotationCollection (genes with transcripts, feature collections, variant "
-        "collections; no parent / sequence-less parent / whole chromosome / sequence chunk). (1) exhaustive: every "
+        "collections; no parent / sequence-less parent / whole chromosome / sequence chunk; bounds taken from the "
+        "parent or explicit start=/end= in every relation to the sequence). (1) exhaustive: every "
         "single-child collection on a tiny genome x parents x ALL ranges (incl. None, negative, start == end, out of "
         "bounds) x all 8 flag combinations; (2) random collections of <= 4 children on a genome of length <= 12 x "
         "ALL ranges x all flags; (3) GUID / interval-GUID / identifier queries for all subsets of ids (plus unknown "
@@ -25,7 +26,9 @@ TRUSTED = ["Model/Query.lean is hand-written; tied to gene/collections.py, gene.
            "harness/shims.py (marshmallow post_dump) only to import the gene package",
            "harness/impl_query.py renders the real result (guids, coordinates, to_dict equality, spliced sequences)"]
 ASSUMPTIONS = ["cgranges is not installed: the pure-Python branch `_query_by_position` (bin pre-filter) is what runs; "
-               "`_optimized_query_by_position` is not exercised",
+               "`_optimized_query_by_position` is covered by proof only (Props.C09.optimized_branch_agrees, under the "
+               "documented overlap semantics of the interval tree); its one divergence — a zero-length child inside a "
+               "relaxed range — is Props.C09.optimized_branch_differs_on_empty_span",
                "all members are built on the collection's own parent (strict_parent_compare never fails)",
                "grandchildren are single-block intervals; children carry explicit distinct GUIDs (content-hash GUID "
                "collisions are not explored)",
@@ -364,7 +367,7 @@ def cases(run):
             yield from pos_lines("P - -", coll, all_ranges(0, L), rng.sample(FLAGS, 2))
 
     # (2b) sequence parents with explicit bounds x ALL ranges x 4 flag combinations, and the id queries
-    for i in range(8 if quick else 140):
+    for i in range(8 if quick else 100):
         L = rng.choice([6, 9, 12])
         kids = rand_coll(rng, 0, L, nmax=3)
         coll = enc_coll(kids)
